@@ -291,3 +291,163 @@ Example C14_example_silent_pooled :
                   ix_exec false 3 ls ix_init = Some s /\ ix_dead (ix_conn s) = false /\
                   nth_error (ix_ws s2) 0 = Some w2 /\ pcv w2 = PRet RReply /\ dials w2 = 1 /\ retry w2 = 1.
 Proof. cbv zeta. split; [vm_compute; reflexivity|]. split; [reflexivity|]. eexists; eexists; eexists. vm_compute. repeat split. Qed.
+
+(* =====================================================================================================================
+   Round 2 — what is carried from one exchange to the next: the connection mutex and the shared dialing call.
+   Models: Net/ConnLock.v (every function of pipeline_conn.go that takes pipelineConn.m, any number of goroutines, any
+   interleaving of their atomic actions), Net/Shutdown.v Part 5 (getConn / runDialingCall / dialingQuicCall.wait of
+   QuicTransport: the LTS of C18, here used for what a FINISHED dialing call leaves behind), Net/Outage.v (sequences
+   of exchanges across a server outage).  Proofs: Net/ConnLockProofs.v, Net/OutageProofs.v.
+   ===================================================================================================================== *)
+From Mos Require Import Net.Shutdown Net.ShutdownProofs Net.ConnLock Net.ConnLockProofs Net.Outage Net.OutageProofs.
+
+(* ---- closeWithErr / deleteQueueC / Status / addQueueC: the connection mutex is never left locked ----
+   In every state reachable by any interleaving of any goroutines running any sequences of the operations
+   (closeWithErr any number of times, by the writer, the read loop, deleteQueueC at wire-id exhaustion, the pool):
+   if c.m is held, its holder is a goroutine inside a critical section ("no reachable state has the connection lock
+   held with no running action") ... *)
+Theorem C14_conn_lock_never_orphaned : forall eol progs s,
+  cl_reachable eol progs s -> cl_lock_orphaned s = false.
+Proof. exact cl_lock_never_orphaned. Qed.
+Print Assumptions C14_conn_lock_never_orphaned.
+
+(* ... whose next action is enabled and releases it ... *)
+Theorem C14_conn_lock_holder_releases : forall eol progs s a,
+  cl_reachable eol progs s -> cc_lock (cs_conn s) = Some a ->
+  exists s', cl_step true eol s a = Some s' /\ cc_lock (cs_conn s') = None.
+Proof. exact cl_holder_releases. Qed.
+Print Assumptions C14_conn_lock_holder_releases.
+
+(* ... so no reachable state is a deadlock: while some call has not returned, some goroutine can move; every atomic
+   action consumes the measure [cl_cost], hence every execution is at most [cl_cost] of its first state long: every
+   exchange (its deleteQueueC, its pool.Release -> Status), every close and every Status call RETURNS, whatever the
+   number of closeWithErr calls on the connection. *)
+Theorem C14_conn_ops_no_deadlock : forall eol progs s,
+  cl_reachable eol progs s -> cl_all_done s = false -> cl_can_move true eol s = true.
+Proof. exact cl_reachable_no_deadlock. Qed.
+Print Assumptions C14_conn_ops_no_deadlock.
+
+Theorem C14_conn_ops_bounded : forall unl eol sched s s',
+  cl_exec unl eol sched s = Some s' -> length sched + cl_cost eol s' <= cl_cost eol s.
+Proof. exact cl_exec_bounded. Qed.
+Print Assumptions C14_conn_ops_bounded.
+
+(* the runner compared with the real pipelineConn on every run (kind "connlock"): all calls return, the mutex is free *)
+Theorem C14_conn_ops_all_return : forall eol progs reader,
+  let o := cl_case true eol progs reader in co_done o = co_total o /\ co_free o = true.
+Proof. exact cl_case_all_return. Qed.
+Print Assumptions C14_conn_ops_all_return.
+
+(* "Subsequent calls are noop": a second closeWithErr is enabled, changes nothing and leaves the mutex free *)
+Theorem C14_second_close_is_noop : forall eol s a rest,
+  nth_error (cs_actors s) a = Some (mkClA (ClClose :: rest) ClIdle) ->
+  cc_lock (cs_conn s) = None -> cc_closed (cs_conn s) = true ->
+  cl_exec true eol [a; a] s = Some (cl_set s (cs_conn s) a (mkClA rest ClIdle)).
+Proof. exact cl_second_close_noop. Qed.
+Print Assumptions C14_second_close_is_noop.
+
+(* sensitivity: WITHOUT the Unlock on the already-closed branch, an exchange on a refusing UDP port (addQueueC; the
+   failing write closes; deleteQueueC; Release -> Status) plus the read loop's close reach a state where the mutex is
+   held by a goroutine that has returned, nobody can move and the exchange never returns; with the code as it is the
+   same goroutines under the same schedule leave the mutex free and all return *)
+Theorem C14_lost_unlock_would_deadlock :
+  cl_exec false false cl_leak_sched (cl_init cl_leak_progs) = Some cl_leak_state /\
+  cl_lock_orphaned cl_leak_state = true /\
+  cl_can_move false false cl_leak_state = false /\
+  cl_all_done cl_leak_state = false /\
+  cl_done_count (cl_round_robin false false 40 (cl_init cl_leak_progs)) < 3 /\
+  cl_lock_orphaned (cl_run true false cl_leak_sched (cl_init cl_leak_progs)) = false /\
+  cl_all_done (cl_round_robin true false 40 (cl_init cl_leak_progs)) = true.
+Proof. exact cl_lost_unlock_deadlocks. Qed.
+Print Assumptions C14_lost_unlock_would_deadlock.
+
+(* ---- the shared dialing call of QuicTransport: a finished call is never joined ----
+   In every reachable state of the transport, t.dialingCall points (if at all) at a call whose DialContext is still
+   running or has just returned: the critical section of runDialingCall clears the slot on EVERY exit path ... *)
+Theorem C14_dial_slot_only_inflight : forall ls s d,
+  sdq_run sdq_init ls = Some s -> sq_call s = Some d ->
+  exists dd, nth_error (sq_calls s) d = Some dd /\ qd_inflight (qd_stage dd) = true.
+Proof. exact og_slot_only_inflight. Qed.
+Print Assumptions C14_dial_slot_only_inflight.
+
+Theorem C14_dial_slot_cleared_on_every_exit : forall s d s',
+  sdq_step s (SqFinish d) = Some s' -> sq_call s' = None.
+Proof. exact og_finish_clears. Qed.
+Print Assumptions C14_dial_slot_cleared_on_every_exit.
+
+(* ... so an exchange that getConn parks on a dialing call waits for a dial that is in flight (no result published
+   yet), and after a dialing call has finished - success OR failure - no later getConn joins it, ever *)
+Theorem C14_join_only_inflight_dial : forall ls s t s' k d,
+  sdq_run sdq_init ls = Some s -> sdq_step s (SqGet t) = Some s' ->
+  nth_error (sq_tasks s') t = Some k -> qt_stage k = QsWait d ->
+  exists dd, nth_error (sq_calls s') d = Some dd /\ qd_inflight (qd_stage dd) = true /\ qd_result dd = None.
+Proof. exact og_join_only_inflight. Qed.
+Print Assumptions C14_join_only_inflight_dial.
+
+Theorem C14_finished_dial_never_joined : forall ls ls' s s1 d dd t s' k,
+  sdq_run sdq_init ls = Some s ->
+  nth_error (sq_calls s) d = Some dd -> qd_inflight (qd_stage dd) = false ->
+  sdq_run s ls' = Some s1 ->
+  sdq_step s1 (SqGet t) = Some s' -> nth_error (sq_tasks s') t = Some k -> qt_stage k <> QsWait d.
+Proof. exact og_finished_never_joined_later. Qed.
+Print Assumptions C14_finished_dial_never_joined.
+
+(* "the first dial (or the re-dial after a stale connection) fails, afterwards the server is healthy": whatever state
+   the transport is in when the failed dial's critical section runs (any number of exchanges waiting, any history), the
+   next exchange starts a NEW dialing call and, its dial succeeding and the stream working, returns the reply *)
+Theorem C14_dial_fails_once_then_recovers : forall s d dd,
+  nth_error (sq_calls s) d = Some dd -> qd_stage dd = QdGot false -> sq_closed s = false ->
+  exists s1 s', sdq_step s (SqFinish d) = Some s1 /\
+                sdq_run s1 (og_redial_path s1) = Some s' /\
+                sdq_result s' (length (sq_tasks s)) = Some true /\
+                length (sq_calls s') = S (length (sq_calls s)).
+Proof. exact og_dial_fails_once_then_recovers. Qed.
+Print Assumptions C14_dial_fails_once_then_recovers.
+
+Theorem C14_empty_slot_redials : forall s,
+  sq_closed s = false -> sq_call s = None ->
+  (forall c, sq_cache s = Some c -> sdq_conn_open s c = false) ->
+  exists s', sdq_run s (og_redial_path s) = Some s' /\
+             sdq_result s' (length (sq_tasks s)) = Some true /\
+             length (sq_calls s') = S (length (sq_calls s)) /\
+             sq_call s' = None.
+Proof. exact og_redial_recovers. Qed.
+Print Assumptions C14_empty_slot_redials.
+
+(* sensitivity: with a critical section that does NOT clear the slot when the dial failed, the second exchange of
+   "refused once, then healthy" joins the finished call (no dial) and takes its stale error *)
+Theorem C14_uncleared_slot_would_be_joined :
+  (exists s, sdq_run sdq_init og_refused_once = Some s /\ length (sq_calls s) = 2 /\ sq_call s = Some 1) /\
+  (exists s s', og_keep_run sdq_init og_refused_once = Some s /\ length (sq_calls s) = 1 /\ sq_call s = Some 0 /\
+                (exists dd, nth_error (sq_calls s) 0 = Some dd /\ qd_inflight (qd_stage dd) = false) /\
+                og_keep_run s [SqWake 1] = Some s' /\ sdq_result s' 1 = Some false).
+Proof. exact og_uncleared_slot_is_joined_for_ever. Qed.
+Print Assumptions C14_uncleared_slot_would_be_joined.
+
+(* ---- sequences of exchanges across an outage (the scenarios replayed by the kind "outage") ----
+   For every transport, every way the outage fails new connections (refusal, handshake failure, a connection whose
+   Write and Read both fail; QUIC also: packets vanish and the dial stays in flight), 0-7 stale pooled connections
+   (QUIC 0-2), 1-32 exchanges during the outage (QUIC 1-8) and 0-4 afterwards: every exchange of the outage fails,
+   every exchange after the recovery gets its reply, and exactly one dial is made for them. *)
+Theorem C14_outage_sessions_recover : og_grid_quic = true /\ og_grid_pooled = true.
+Proof. exact og_sessions_recover. Qed.
+Print Assumptions C14_outage_sessions_recover.
+
+(* the one-at-a-time transport: ANY number of stale idle connections left over by the outage *)
+Theorem C14_outage_reuse_any_leftover : forall n warm f conc after,
+  oe_after (og_pooled_session TReuse false warm n f conc (S after)) = repeat (Some true) (S after) /\
+  oe_newdials (og_pooled_session TReuse false warm n f conc (S after)) = 1.
+Proof. exact og_reuse_recovers_any_left. Qed.
+Print Assumptions C14_outage_reuse_any_leftover.
+
+(* non-vacuity: a reachable state with the mutex held (its holder releases), and a double close that returns *)
+Example C14_example_double_close :
+  exists s, cl_exec true false [0; 0; 0; 0; 1] (cl_init [[ClClose; ClStatus]; [ClClose]]) = Some s /\
+            cc_lock (cs_conn s) = Some 1 /\ cc_closed (cs_conn s) = true /\
+            co_done (cl_case true false [[ClClose; ClStatus]; [ClClose]] true) = 3.
+Proof. eexists. vm_compute. repeat split. Qed.
+
+Example C14_example_quic_outage :
+  og_session TQuic false true false 1 OgRefuse 3 2 =
+    Some (mkOgE [Some false; Some false; Some false] [Some true; Some true] 1).
+Proof. vm_compute. reflexivity. Qed.
